@@ -14,7 +14,7 @@ pub const FLOORS: &[&str] = &[
     "mut:multibyte", "mut:prefix", "mut:none", "mb_after:x", "mb_after:0x", "mb_after:#",
     "mb_after:.", "mb_after:r", "mb_after:quote", "mb_after:other", "operand_is:directive",
     "operand_is:break", "operand_is:string", "accepted", "rejected", "size:small", "operand_is:number_beyond_32_bits",
-    "line_starts_with:number_beyond_32_bits", "mut:invisible_first_char_short_file",
+    "line_starts_with:number_beyond_32_bits", "mut:invisible_first_char_short_file", "mut:string_ending_in_an_escape",
 ];
 
 const MB: &[&str] = &["\u{e9}", "\u{2713}", "\u{1F34B}", "\u{0301}", "\u{a0}", "\u{3000}", "\u{ff10}",
@@ -286,6 +286,13 @@ pub fn gen_text(rng: &mut Rng, i: u64) -> (String, Vec<String>) {
     let lay = if rng.bool() { Layout::canonical() } else { Layout::random(rng) };
     let base = render(&p, &lay, rng).text;
     let mut m = mutate(&base, rng);
+    if rng.chance(1, 25) {
+        // a string literal that ends in (or shortly behind) a backslash escape of every kind, known or not
+        let c = *rng.pick(&['x', 'u', 'U', '0', '1', '7', 'a', 'b', 'e', 'f', 'n', 'r', 't', 'v', 'N', 'c', 'd', 'o', 'X', '{', '\'', '"', '\\', ' ', '\u{e9}']);
+        let tail = *rng.pick(&["", "4", "41", "7", "b\u{2192}", "{", "{41}", "\u{e9}", "G", "g1", " ", "\\"]);
+        m.text = format!("{}.stringz \"{}\\{}{}\"{}", rng.s(&["", "s ", "lea r0 s\ns "]), rng.s(&["", "C:\\\\tmp", "bell", "a"]), c, tail, rng.s(&["", "\n", "\nhalt\n"]));
+        m.classes.push("mut:string_ending_in_an_escape".into());
+    }
     if rng.chance(1, 30) {
         // an invisible first character, and a file that ends right after its first token or two
         let keep = 1 + rng.below(9) as usize;
@@ -471,6 +478,12 @@ pub fn size_cases() -> Vec<(String, String)> {
             ));
         }
     }
+    // a `.break` (and a label in front of one) behind a program that fills every one of the 65535 lines
+    v.push(("size:last_line_of_a_full_program break after".into(), ".blkw xFFFF\n.break\n".into()));
+    v.push(("size:last_line_of_a_full_program break after stmt".into(), ".blkw xFFFE\nhalt\n.break\n".into()));
+    v.push(("size:last_line_of_a_full_program labelled break".into(), "x_ .blkw xFFFF\nlab .break\n".into()));
+    v.push(("size:last_line_of_a_full_program break then end".into(), ".orig x0000\n.blkw xFFFF\n.break\n.end\n".into()));
+    v.push(("size:last_line_of_a_full_program break before last".into(), ".blkw xFFFE\n.break\nhalt\n".into()));
     // long runs of lines that produce no token for the parser (anything that handles them by
     // recursion instead of iteration runs out of stack), and single lines of extreme length
     v.push(("size:many_comment_lines lf".into(), "; c\n".repeat(200_000) + "halt\n"));
